@@ -208,20 +208,37 @@ ShapeOK(syn, s) ==
   /\ ("utf8_validation" \in DOMAIN s.ov) => (s.type = "string" \/ s.mapkey = "string")
   /\ ("message_encoding" \in DOMAIN s.ov) => (s.type = "message" /\ ~IsMap(s))
 
-Valid(F) ==
+(* structural validity: well-formed and well-targeted overrides, admissible field shapes, unique names *)
+Core(F) ==
   /\ F.syntax \in Syntaxes
   /\ \A o \in {F.fov, F.eov, F.neov, F.mov, F.nov} : IsOv(o) /\ (o # NoOv => F.syntax = "editions")
   /\ OvFor("file", F.fov) /\ OvFor("enum", F.eov) /\ OvFor("enum", F.neov) /\ OvFor("message", F.mov) /\ OvFor("message", F.nov)
   /\ ("field_presence" \in DOMAIN F.fov) => F.fov["field_presence"] # "LEGACY_REQUIRED"     \* not as a file default
-  /\ \A e \in {"E", "NE"} : (~IsClosed(F, e)) => (IF e = "E" THEN F.ezero ELSE F.nezero)   \* an open enum starts at zero
-  /\ \A k \in Idx(F) : LET s == F.fields[k] IN
-        /\ ShapeOK(F.syntax, s)
-        \* a singular field without presence needs an open enum, and cannot have a default
-        /\ (IsEnumTyped(s) /\ ~IsRepeated(s) /\ ~HasPresence(F, s)) => ~IsClosed(F, EnumOfType(s.type))
-        /\ s.dflt => HasPresence(F, s)
-        \* a map value of enum type follows the same rule in proto3-like (implicit) contexts: keep to open enums there
-        /\ (IsMap(s) /\ IsEnumTyped(s) /\ FieldFeature(F, s, "field_presence") = "IMPLICIT") => ~IsClosed(F, EnumOfType(s.type))
-  \* names are unique per scope: at most one field called "t" in a scope (and no "t" next to message T's own scope clash)
+  /\ \A k \in Idx(F) : ShapeOK(F.syntax, F.fields[k])
+  \* names are unique per scope: at most one field called "t" in a scope
   /\ \A k1, k2 \in Idx(F) : (k1 # k2 /\ F.fields[k1].lname /\ F.fields[k2].lname /\ F.fields[k1].tgt = "T" /\ F.fields[k2].tgt = "T")
                                => F.fields[k1].scope # F.fields[k2].scope
+
+(* rules on *resolved* features and enum numbering.  A file value that breaks one of them is rejected by protoc; the
+   generator also exports file values that break exactly one (flagged), because the property quantifies over what the
+   compiler under test accepts: if it accepts such a file the runtime must still accept the result. *)
+EnumZero(F, e) == IF e = "E" THEN F.ezero ELSE F.nezero
+RuleIds == {"open-enum-first-zero", "implicit-field-closed-enum", "implicit-field-default", "map-value-closed-enum-implicit",
+            "map-value-enum-first-zero"}
+RuleHolds(F, r) ==
+  CASE r = "open-enum-first-zero" ->            \* an open enum starts at zero
+         \A e \in {"E", "NE"} : (~IsClosed(F, e)) => EnumZero(F, e)
+    [] r = "implicit-field-closed-enum" ->      \* a singular field without presence needs an open enum
+         \A k \in Idx(F) : LET s == F.fields[k] IN
+            (IsEnumTyped(s) /\ ~IsRepeated(s) /\ ~HasPresence(F, s)) => ~IsClosed(F, EnumOfType(s.type))
+    [] r = "implicit-field-default" ->          \* ... and cannot have a default
+         \A k \in Idx(F) : F.fields[k].dflt => HasPresence(F, F.fields[k])
+    [] r = "map-value-closed-enum-implicit" ->  \* the value field of a map entry is such a singular field
+         \A k \in Idx(F) : LET s == F.fields[k] IN
+            (IsMap(s) /\ IsEnumTyped(s) /\ FieldFeature(F, s, "field_presence") = "IMPLICIT") => ~IsClosed(F, EnumOfType(s.type))
+    [] r = "map-value-enum-first-zero" ->       \* "enum value in map must define 0 as the first value"
+         \A k \in Idx(F) : LET s == F.fields[k] IN (IsMap(s) /\ IsEnumTyped(s)) => EnumZero(F, EnumOfType(s.type))
+Broken(F) == {r \in RuleIds : ~RuleHolds(F, r)}
+
+Valid(F) == Core(F) /\ Broken(F) = {}
 =============================================================================
